@@ -318,14 +318,19 @@ fn check_loc(loc: &SpanLoc, message: &str, fs: Option<&SimFs>, spec: &JobSpec) -
             return Some(format!("error names {:?}, which was never read through the Fs", name));
         }
     }
+    // A location is inside the text iff (line, column) can be converted back to
+    // an offset of the text: the line exists and the column does not exceed the
+    // characters of the raw line *including its terminator* (an error at the end
+    // of a line legitimately points at the `\n`, which after a `\r` is one past
+    // the visible text), or at the end of the text.
+    let raw: Vec<&str> = src.split_inclusive('\n').collect();
     let nlines = src.split('\n').count();
     if loc.begin.line >= nlines || loc.end.line >= nlines {
         return Some(format!("line {} (end {}) outside the {} lines of {}", loc.begin.line + 1, loc.end.line + 1, nlines, name));
     }
-    let bl = loc.file.source_line(loc.begin.line);
-    let el = loc.file.source_line(loc.end.line);
-    if loc.begin.column > bl.chars().count() || loc.end.column > el.chars().count() {
-        return Some(format!("column {} (end {}) outside line {} of {}", loc.begin.column + 1, loc.end.column + 1, loc.begin.line + 1, name));
+    let width = |l: usize| raw.get(l).map_or(0, |t| t.chars().count());
+    if loc.begin.column > width(loc.begin.line) || loc.end.column > width(loc.end.line) {
+        return Some(format!("column {} of line {} (end: column {} of line {}) outside the text of {}", loc.begin.column + 1, loc.begin.line + 1, loc.end.column + 1, loc.end.line + 1, name));
     }
     if (loc.begin.line, loc.begin.column) > (loc.end.line, loc.end.column) {
         return Some("location ends before it begins".into());
